@@ -203,9 +203,6 @@ class DULServiceProvider(threading.Thread):
             self._is_killed.set()
 
     def _check_network(self):
-        if self.state_machine.current_state == fsm.States.STA_13:
-            return self._close()
-
         if not self.dul_socket:
             return False
 
@@ -295,25 +292,6 @@ class DULServiceProvider(threading.Thread):
         except Exception:  # pylint: disable=broad-except
             # unrecognized PDU type or PDU that can not be decoded
             self.event.append(fsm.Events.EVT_19)
-        return True
-
-    def _close(self):
-        # waiting for connection to close
-        if self.dul_socket is None:
-            return False
-
-        # wait for remote connection to close, but do not block on it: ARTIM timer limits the wait
-        try:
-            if not select.select([self.dul_socket], [], [], 0.05)[0]:
-                return False
-            if self.dul_socket.recv(self.max_pdu_length) != b'':
-                return False  # association no longer exists, whatever has been received is ignored
-        except socket.error:
-            return False
-
-        self.dul_socket.close()
-        self.dul_socket = None
-        self.event.append(fsm.Events.EVT_17)
         return True
 
 
